@@ -267,6 +267,9 @@ def compare_group(prop, group, rundir, stats):
         ml = ml.rstrip('\n')
         m1s, _, m0s = ml.partition(' ## ')
         I, M1, M0 = parse_obs(il), parse_obs(m1s), parse_obs(m0s)
+        invalid_pos = M1.get('vp') == '0'
+        if invalid_pos:
+            stats['invalid_positions'] = stats.get('invalid_positions', 0) + 1
         if op in only_if:
             k, v = only_if[op]
             if klass(I.get(k)) != v and klass(M1.get(k)) != v:
@@ -306,12 +309,14 @@ def compare_group(prop, group, rundir, stats):
                     findings.append(Finding(prop, group, lineno, opl, op, k, iv, mv, sv, 'decisive', list(session_ops)))
                 continue
             if iv == mv:
-                if sv is not None and sv != mv:
+                if sv is not None and sv != mv and not invalid_pos:
                     model_disagreements.append(Finding(prop, group, lineno, opl, op, k, iv, mv, sv, 'model', list(session_ops)))
                 continue
             # implementation differs from the model
-            if sv is not None and sv == iv:
+            if sv is not None and sv == iv and not invalid_pos:
                 model_disagreements.append(Finding(prop, group, lineno, opl, op, k, iv, mv, sv, 'model', list(session_ops)))
+                continue
+            if invalid_pos and sv is not None and sv == iv:
                 continue
             findings.append(Finding(prop, group, lineno, opl, op, k, iv, mv, sv, 'decisive', list(session_ops)))
     stats['evaluations'] += n
@@ -534,7 +539,7 @@ def run_property(prop, tier, seed):
         per_op=stats['per_op'], groups=list(spec['groups']), timing=timing, generator=gen,
         model_disagreements=len(model_dis), exhaustive=bool(reg.get('exhaustive_tie', False)),
     )
-    for k in ('transposition_keys', 'distinct_moves_roundtripped'):
+    for k in ('transposition_keys', 'distinct_moves_roundtripped', 'invalid_positions'):
         if k in stats:
             cov[k] = stats[k]
     if level != 'proof' or obligations == 0:
